@@ -309,9 +309,9 @@ def custom(vc, spec, tier, seed, replay):
             "rerun": "tools/check %s" % PROP})
         violations.append(("facts_comply: %s of %s in %s, held %s, discipline %s" % (kv["kind"], kv["loc"], kv["fn"], kv.get("held"), kv["discipline"]), rp, True))
     rest = [b for b in broken if not (b.startswith("proof:") and "facts_comply" in b and (new_fails or race_new))]
-    rest = [b for b in rest if not (b.startswith("proof:") and "full_statement_refuted" in b and not fails)]
-    if broken and not fails and any("full_statement_refuted" in b for b in broken):
-        rest.append("full_statement_refuted: no access fact violates its discipline any more — remove the fixed entries from Table.knownViolations and restate")
+    if any(b.startswith("proof:") and "full_statement_status" in b for b in broken):
+        rest.append("full_statement_status: the flags fix1..fix7 of lean/Refinery/Model/LocksTable.lean do not match the tree "
+                    "(all fixes landed <-> no access fact violates its discipline); failing facts now: %d" % len(fails))
     if rest and not violations:
         rp = vc.write_replay(PROP, "%d-broken" % seed, {
             "property": PROP, "kind": "broken-obligation", "seed": seed, "tier": tier,
